@@ -276,15 +276,17 @@ def sig_duplicate_formula(case, res):
     idx = d.get("cmd_index", 0)
     decls = osmt.ref_decls(case, idx)
     earlier = [strip_names(c[1]) for c in case["cmds"][:idx] if c[0] in ("assert", "assert-named")]
-    if len(set(earlier)) < len(earlier):
-        return True
-    if len(earlier) > 24:
-        return False
-    for i in range(len(earlier)):
-        for j in range(i):
-            if z3_equiv(decls, earlier[i], earlier[j], 1000) is True:
-                return True
-    return False
+    by_name = {c[2]: strip_names(c[1]) for c in case["cmds"][:idx] if c[0] == "assert-named"}
+    conjs = []
+    try:
+        for g in case["cmds"][idx][1]:
+            if g.startswith("(and "):
+                ms = [by_name.get(n) for n in sexpr.parse_one(g)[1:]]
+                if None not in ms:
+                    conjs.append("(and %s)" % " ".join(ms))
+    except Exception:
+        pass
+    return ref.any_equivalent_pair(decls, earlier, conjs)
 
 
 def sig_recheck(case, res):
